@@ -344,7 +344,9 @@ def mk_cases(ctx):
                 cases.append(dict(op="nwar", f=f, names=list(names)))
         cases.append(dict(op="nwar", f=f, names=list(wire.SORTED_KEYS)))
         cases.append(dict(op="nwar", f=f, names=["fg", "fg"]))
-        for t in ("", "Z", "new text"):
+        # the new text is taken VERBATIM: escape sequences in it are characters, not formatting
+        for t in ("", "Z", "new text", "\x1b[1mb", "x\x1b[32mgreen\x1b[39my", "a\x1b[2Jb", "\x1b[38;5;1mq", "a\x1bb", "\x1b",
+                  "\x9b31mz", "\x1b[0m", "p\x1b[mq"):
             cases.append(dict(op="cwns", f=f, t=t))
     # a plain STR that already carries SGR sequences (a rendered FmtStr fed back in): the applied attributes win over the
     # ones in the text, on every character, also after a reset inside the text
